@@ -1,6 +1,6 @@
 (* c15_driver.ml - line-oriented interpreter over the extracted manager model (C15).
    Reads the same scripts as harness/mgr_events.c and prints the same canonical lines.
-   usage: c15_model [shipped|fixed|current]                                              *)
+   usage: c15_model [shipped|fixed|init-only|shutdown-only|current]                                              *)
 open C15_model
 
 let rec nat_of_int n = if n <= 0 then O else S (nat_of_int (n - 1))
@@ -46,7 +46,10 @@ let print_cfg = function
 
 let () =
   let v = match Array.to_list Sys.argv with
-    | _ :: "fixed" :: _ -> fixed | _ :: "shipped" :: _ -> shipped | _ -> current in
+    | _ :: "fixed" :: _ -> fixed | _ :: "shipped" :: _ -> shipped
+    | _ :: "init-only" :: _ -> { fix_init_groups_null = true; fix_shutdown_counts_closed = false }
+    | _ :: "shutdown-only" :: _ -> { fix_init_groups_null = false; fix_shutdown_counts_closed = true }
+    | _ -> current in
   let cfg = ref None in
   let apply o =
     match !cfg with
